@@ -30,6 +30,8 @@ def _maybe_fault(name: str, point: int):
             raise RuntimeError(f"injected failure in {name} at {point}")
         if p["kind"] == "exit":
             sys.exit(3)
+        if p["kind"] == "exit0":
+            sys.exit()  # the plain call: exit status 0
         if p["kind"] == "kill" and REAL[0]:
             import os
             import signal
@@ -85,7 +87,7 @@ def body_faults(job: JobInstance):
         n = len(inst.definition.output_schema)
         points = [0] if n == 1 else list(range(n + 1))
         for p in points:
-            for kind in ("raise", "exit", "kill"):
+            for kind in ("raise", "exit", "exit0", "kill"):
                 out.append({"type": "body", "task": t, "point": p, "kind": kind})
     return out
 
@@ -214,7 +216,7 @@ def run(ctx):
     ctx.coverage["real_process_validations"] = real
     ctx.coverage.update(
         evaluations=evaluations, distinct_nontrivial=len(fired), exhaustive=all("stride" not in c for c in cfgs), outcomes=histogram,
-        rule="per (job, cluster shape): every task x every body point (before the first output, after k of N outputs, after the last) x {raise, sys.exit(3), kill}; every helper process (worker, data server, shm server) x every scheduler step of the fault-free default schedule (stride given per config). Non-trivial = the fault actually fired before the run ended (distinct by victim x point x kind)",
+        rule="per (job, cluster shape): every task x every body point (before the first output, after k of N outputs, after the last) x {raise, sys.exit(3), sys.exit() with status 0, kill}; every helper process (worker, data server, shm server) x every scheduler step of the fault-free default schedule (stride given per config). Non-trivial = the fault actually fired before the run ended (distinct by victim x point x kind)",
         configs=cfgs, horizon_virtual_s=HORIZON_S,
     )
     ctx.assume("default schedule (first ready process, timers only when nothing else is enabled); one fault per execution",
@@ -230,65 +232,85 @@ REAL_FAULTS = [
     {"job": "fork3", "hosts": 2, "workers": 1, "fault": {"type": "body", "task": "t0", "point": 1, "kind": "raise"}},
     {"job": "diamond", "hosts": 2, "workers": 1, "fault": {"type": "body", "task": "t3", "point": 0, "kind": "kill"}},
     {"job": "diamond", "hosts": 2, "workers": 2, "fault": None},
+    {"job": "chain2", "hosts": 1, "workers": 1, "fault": {"type": "body", "task": "t1", "point": 0, "kind": "exit0"}},
     {"job": "fork3", "hosts": 1, "workers": 2, "fault": {"type": "body", "task": "t0", "point": 3, "kind": "kill"}},
 ]
 
 
-def real_validation(ctx, n: int) -> list:
-    """A fixed list of faults replayed on a real multi-process local cluster; the outcome class must be the one the
-    virtual cluster predicts and nothing may be left behind. These runs validate the model; the verdict on the
-    property comes from the enumeration."""
+def real_one(spec: dict):
+    """one fault on a real multi-process local cluster -> (record, [(signature, message, replay)])"""
+    import glob
     import json
     import os
     import subprocess
     import sys
 
-    out = []
-    for spec in REAL_FAULTS[:n]:
-        cfg = {k: spec[k] for k in ("job", "hosts", "workers")}
-        virt = execute(cfg, spec["fault"])
-        v_outcome = "hang" if virt["phase1"] != "done" else ("returned" if virt["returned"] else "raised")
-        env = dict(os.environ, PYTHONPATH=f"/repo/src:{common.VERIF}")
-        try:
-            r = subprocess.run([sys.executable, "-W", "ignore", "-m", "vf.realcluster", json.dumps(dict(spec, deadline_s=90))], capture_output=True, text=True,
-                               timeout=180, env=env, start_new_session=True, cwd=common.VERIF)
-        except subprocess.TimeoutExpired:
-            raise common.HarnessError(f"real cluster validation run timed out: {spec}")
-        line = [ln for ln in r.stdout.splitlines() if ln.startswith("RESULT")]
-        if not line:
-            raise common.HarnessError(f"real cluster validation run produced no result: {spec}\n{r.stderr[-800:]}")
-        real = json.loads(line[0][6:])
-        import glob
+    cfg = {k: spec[k] for k in ("job", "hosts", "workers")}
+    virt = execute(cfg, spec["fault"])
+    v_outcome = "hang" if virt["phase1"] != "done" else ("returned" if virt["returned"] else "raised")
+    env = dict(os.environ, PYTHONPATH=f"/repo/src:{common.VERIF}")
+    import signal
 
-        for h in real.get("hostnames", []):
-            for f in glob.glob(f"/tmp/{h}.*.socket"):
-                try:
-                    os.unlink(f)
-                except OSError:
-                    pass
-        for f in real["shm_left"]:
+    pr = subprocess.Popen([sys.executable, "-W", "ignore", "-m", "vf.realcluster", json.dumps(dict(spec, deadline_s=90))], stdout=subprocess.PIPE, stderr=subprocess.PIPE,
+                          text=True, env=env, start_new_session=True, cwd=common.VERIF)
+    try:
+        stdout, stderr = pr.communicate(timeout=240)
+    except subprocess.TimeoutExpired:
+        try:
+            os.killpg(pr.pid, signal.SIGKILL)  # the run leads its own session: nothing of it may outlive the check
+        except OSError:
+            pass
+        pr.communicate()
+        raise common.HarnessError(f"real cluster validation run timed out: {spec}")
+    line = [ln for ln in stdout.splitlines() if ln.startswith("RESULT")]
+    if not line:
+        raise common.HarnessError(f"real cluster validation run produced no result: {spec}\n{stderr[-800:]}")
+    real = json.loads(line[0][6:])
+    for h in real.get("hostnames", []):
+        for f in glob.glob(f"/tmp/{h}.*.socket"):
             try:
-                os.unlink(os.path.join("/dev/shm", f))
+                os.unlink(f)
             except OSError:
                 pass
-        rec = {"spec": spec, "virtual": v_outcome, "real": real["outcome"], "real_wall_s": real["wall_s"], "executors_alive": real["executors_alive"], "shm_left": real["shm_left"]}
+    for f in real["shm_left"]:
+        try:
+            os.unlink(os.path.join("/dev/shm", f))
+        except OSError:
+            pass
+    rec = {"spec": spec, "virtual": v_outcome, "real": real["outcome"], "real_wall_s": real["wall_s"], "executors_alive": len(real["executors_alive"]), "shm_left": len(real["shm_left"])}
+    rp = {"cfg": cfg, "fault": spec["fault"], "real": True, "spec": spec}
+    victim = "no fault" if spec["fault"] is None else f"task body {spec['fault']['kind']}"
+    viols = []
+    if real["outcome"] == "hang":
+        viols.append(({"monitor": "run_hangs", "cause": f"real processes, {victim}: controller still waiting after 90 s"}, f"{rec}", rp))
+    elif real["wrong"]:
+        viols.append(({"monitor": "wrong_value", "cause": f"real processes, {victim}: wrong value"}, f"{rec}", rp))
+    elif real["executors_alive"] or real["shm_left"]:
+        viols.append(({"monitor": "processes_left_behind" if real["executors_alive"] else "segments_left_behind", "cause": f"real processes, {victim}: leftovers after the run"}, f"{rec}", rp))
+    if real["outcome"] != v_outcome and real["outcome"] != "hang":
+        raise common.HarnessError(f"virtual cluster predicts '{v_outcome}' but the real cluster gave '{real['outcome']}' for {spec}: the model misrepresents the code")
+    return rec, viols
+
+
+def real_validation(ctx, n: int) -> list:
+    """A fixed list of faults replayed on a real multi-process local cluster; the outcome class must be the one the
+    virtual cluster predicts and nothing may be left behind. These runs validate the model and also catch what only
+    real processes and sockets show (socket options, exit codes, process trees)."""
+    out = []
+    for spec in REAL_FAULTS[:n]:
+        rec, viols = real_one(spec)
         out.append(rec)
-        rp = {"cfg": cfg, "fault": spec["fault"], "real": True}
-        victim = "no fault" if spec["fault"] is None else f"task body {spec['fault']['kind']}"
-        if real["outcome"] == "hang":
-            ctx.add_violation(common.Violation({"monitor": "run_hangs", "cause": f"real processes, {victim}: controller still waiting after 90 s"}, f"{rec}", rp))
-        elif real["wrong"]:
-            ctx.add_violation(common.Violation({"monitor": "wrong_value", "cause": f"real processes, {victim}: wrong value"}, f"{rec}", rp))
-        elif real["executors_alive"] or real["shm_left"]:
-            ctx.add_violation(common.Violation({"monitor": "processes_left_behind" if real["executors_alive"] else "segments_left_behind", "cause": f"real processes, {victim}: leftovers after the run"}, f"{rec}", rp))
-        if real["outcome"] != v_outcome and real["outcome"] != "hang":
-            raise common.HarnessError(f"virtual cluster predicts '{v_outcome}' but the real cluster gave '{real['outcome']}' for {spec}: the model misrepresents the code")
+        for sig, msg, rp in viols:
+            ctx.add_violation(common.Violation(sig, msg, rp))
     return out
 
 
 def replay(ctx, data):
     if data.get("real"):
-        return []
+        if "spec" not in data:
+            return []
+        _, viols = real_one(data["spec"])
+        return [common.Violation(sig, msg, rp) for sig, msg, rp in viols]
     if data.get("second_kill"):
         from vf import c05_ext
 
